@@ -1034,6 +1034,18 @@ Definition lowered_integer_pow (sb : ity) (x : Z) (n : nat) := repaired_integer_
 Theorem integer_pow_correct sb x n : 0 < snd sb -> in_int sb x -> lowered_integer_pow sb x n = jax_integer_pow sb x n.
 Proof. exact (repaired_integer_pow_correct sb x n). Qed.
 
+(* ---------------------------------------------------------------- pending repairs (.scratch/c01k/fix_relu_unsigned.diff, fix_jnp_power.diff) *)
+(* jax.nn.relu on unsigned types: Identity instead of Relu (which has no unsigned variant) *)
+Definition repaired_relu (sb : ity) (x : Z) := if is_signed sb then o_relu x else o_identity x.
+Theorem repaired_relu_correct sb x : in_int sb x -> repaired_relu sb x = jax_relu x.
+Proof.
+  intro Hx. unfold repaired_relu. destruct (is_signed sb) eqn:Hs; [apply relu_correct|].
+  unfold o_identity, jax_relu. destruct sb as [sg b]; unfold is_signed in Hs; simpl in Hs; subst sg.
+  unfold in_int, int_lo in Hx; simpl in Hx. destruct (x <? 0) eqn:E; lia.
+Qed.
+(* jnp.power / jnp.pow with a constant integer exponent on integers: the repeated-Mul graph of lowered_integer_pow
+   (integer_pow_correct); the Pow graph (prerepair_integer_pow) is valid ONNX for int32 / int64 bases only *)
+
 (* ================================================================ non-vacuity *)
 Example nonvacuous_div : in_int I32 (-7) /\ in_int I32 2 /\ div_dom I32 (-7) 2 /\ lowered_div I32 (-7) 2 = -3.
 Proof. repeat split; vm_compute; try discriminate; try reflexivity. intros (_ & H & _). discriminate. Qed.
